@@ -129,7 +129,7 @@ def shq(s):
     return "'" + s.replace("'", "'\\''") + "'"
 
 
-CHECK_RE = re.compile(r"^Check (\d+): (\S+)\s*$")
+CHECK_RE = re.compile(r"^Check (\d+): (.+?)\s*$")
 
 
 def parse_kani_log(path):
